@@ -3,5 +3,6 @@ CONSTANTS
   NMsgs = 3
   MaxOps = 2
   Buffers = {TRUE, FALSE}
+  Kinds = {"unbounded"}
   Depth = 8
 CONSTRAINT Emit
